@@ -27,6 +27,12 @@ def probe_universe(st: State, rng: random.Random, level: int):
             out.append(('show_or_muck_hole_cards', A(p=p, mode='bool', b=False)))
         out.append(('show_or_muck_hole_cards', A(mode='bool', b=True)))
         out.append(('show_or_muck_hole_cards', A(mode='bool', b=False)))
+        for i in list(st.showdown_indices)[:3]:          # explicit shows: one card, all but one, all
+            h = [card_int(c) for c in st.hole_cards[i]]
+            if h and 52 not in h:
+                for cs in (h[:1], h[:-1], h, h[1:]):
+                    if cs:
+                        out.append(('show_or_muck_hole_cards', A(p=i + 1, mode='cards', cards=cs)))
         for rc in (-3, 0, 1, 2, 3):
             out.append(('select_runout_count', A(has=True, amt=rc)))
             out.append(('select_runout_count', A(has=True, amt=rc, p=rng.randint(1, n))))
